@@ -15,7 +15,7 @@ MAPSET_GAMES = ("sm", "o2j")
 TEXTS = ["Caravan", "夜に駆ける", "Ünïcode", "a b c", "x_y-z", "", "Re:Title", "2nd", "A, B & C", "élan vital"]
 ASCII_TEXTS = ["Caravan", "a b c", "x_y-z", "", "2nd", "Title", "Some Artist"]
 FILES = ["hit.wav", "clap.ogg", "snare 2.wav", "kick.wav", "a-b_c.wav", "x.ogg"]
-BPMS = [60.0, 90.0, 100.0, 120.0, 128.0, 150.0, 173.25, 174.0, 180.5, 200.0, 222.22, 240.0, 300.0]
+BPMS = [60.0, 90.0, 100.0, 120.0, 128.0, 150.0, 173.25, 174.0, 180.5, 200.0, 222.22, 240.0, 300.0, 180.0018, 150.001, 150.004, 139.99969]
 
 SM_TYPES = {3: "dance-threepanel", 4: "dance-single", 6: "dance-solo", 7: "kb7-single", 8: "dance-double"}
 SM_NOTE_LISTS = ["hits", "holds", "rolls", "mines", "lifts", "fakes", "keysounds"]
